@@ -23,7 +23,7 @@ CHECK_DEADLOCK FALSE
        "PROPERTIES ShutdownEndsServing TimeoutEventually SecondBindRefused" if props else "")
 
 
-def svc_gen_cfg(maxops, clients='{"k1", "k2"}', ifaces="{}", rounds=2, timeouts=2, binds=2):
+def svc_gen_cfg(maxops, clients='{"k1", "k2"}', ifaces="{}", rounds=2, timeouts=2, binds=2, macro=False):
     return """SPECIFICATION GSpec
 CONSTANTS
   Clients = %s
@@ -32,17 +32,18 @@ CONSTANTS
   MaxTimeouts = %d
   MaxBinds = %d
   MaxOps = %d
+  Macro = %s
   Dev = {}
 INVARIANT Dump
 CHECK_DEADLOCK FALSE
-""" % (clients, ifaces, rounds, timeouts, binds, maxops)
+""" % (clients, ifaces, rounds, timeouts, binds, maxops, "TRUE" if macro else "FALSE")
 
 
 def svc_trace_cfg(dev="{}", drop=()):
     invs = " ".join(i for i in SVC_INVS.split() if i not in drop)
     return """SPECIFICATION TraceSpec
 CONSTANTS
-  Clients = {"k1", "k2"}
+  Clients = {"k1", "k2", "k3", "k4"}
   Ifaces = {"i1", "i2"}
   MaxRounds = 100
   MaxTimeouts = 100
@@ -216,7 +217,13 @@ def check_C16(run):
         if m:
             runs += int(m.group(1))
         elif pr.returncode not in (0, 66):
-            raise Inconclusive("race driver failed rc=%s: %s" % (pr.returncode, se[-2000:]))
+            from replay import classify_crash
+            crash = classify_crash(se)
+            if crash:
+                run.violation("the process crashed inside the library during the concurrent-use stress: " + crash[:1200],
+                              {"kind": "crash", "stderr": se[-6000:]})
+            else:
+                raise Inconclusive("race driver failed rc=%s: %s" % (pr.returncode, se[-2000:]))
     text = errs
     for f in os.listdir(wd):
         if f.startswith("rl"):
@@ -257,18 +264,26 @@ def check_C13(run):
     thorough = run.tier == "thorough"
     run.model_check("ServiceMC", svc_mc_cfg(clients="{k1}", ifaces='{"i1", "i2"}', rounds=2, binds=2, timeouts=0),
                     "Service: registration (two names, duplicates, while serving, between rounds) x serve rounds x Shutdown: RegistrationOrder, NoDupNames, all interleavings", timeout=900)
+    # fine-grained histories (register at every gate) ...
     s = gen_schedules(run, svc_gen_cfg(8, clients='{"k1"}', ifaces='{"i1", "i2"}', rounds=2, timeouts=0, binds=2), timeout=900)
     sel = [x for x in s if '"op":"Register"' in x and '"introspect"' in x]
-    run.extra["schedule_space"] = {"len8_with_register_and_introspection": len(sel), "len8_all": len(s)}
+    # ... and long ones over a coarse alphabet (Probe = connect, accept, introspect, close): two serving rounds
+    m = gen_schedules(run, svc_gen_cfg(10, clients='{"k1", "k2", "k3"}', ifaces='{"i1", "i2"}', rounds=2, timeouts=0, binds=2, macro=True), timeout=900)
+    msel = [x for x in m if '"op":"Register"' in x and '"op":"Probe"' in x]
+    two = [x for x in msel if x.count('"op":"Probe"') >= 2 and x.count('"op":"Serve"') >= 2]
+    run.extra["schedule_space"] = {"len8_fine_with_register_and_introspection": len(sel), "len10_macro_with_register_and_probe": len(msel),
+                                   "len10_macro_two_rounds_two_probes": len(two)}
     if not thorough:
-        sel = run.rng.sample(sel, min(len(sel), 900))
+        sel = run.rng.sample(sel, min(len(sel), 500))
+        msel = run.rng.sample(two, min(len(two), 350)) + run.rng.sample(msel, min(len(msel), 350))
     else:
-        sel = run.rng.sample(sel, min(len(sel), 8000))
+        sel = run.rng.sample(sel, min(len(sel), 6000))
+        msel = two + run.rng.sample(msel, min(len(msel), 6000))
     nt = lambda c: any('"ev":"Introspect"' in l for l in c) and any('"res":"refused"' in l for l in c)
-    replay_validate(run, sel, ["service"], "ServiceTrace", svc_trace_cfg(), "C13 registration histories with client-side introspection",
+    replay_validate(run, sel + msel, ["service"], "ServiceTrace", svc_trace_cfg(), "C13 registration histories with client-side introspection",
                     nontrivial=nt, classify=svc_classify("C13"), shards=16)
     run.write_evidence("model_checking",
-        "histories = environment histories of spec/ServiceGen.tla over {Register i1/i2 (incl. duplicates, while serving, between rounds), Install, Serve, Connect, Deliver, Shutdown, End(introspect): GetInfo + GetInterfaceDescription through the client helpers} up to 8 actions (seeded sample); identity strings and description texts contain non-ASCII, <>&, U+2028 and an empty version; non-trivial = an introspection happened and at least one registration was refused",
+        "histories = environment histories of spec/ServiceGen.tla: (a) fine-grained, up to 8 actions over {Register i1/i2 (duplicates, while serving, between rounds), Install, Serve, Connect, Deliver, Shutdown, End(introspect)}; (b) coarse, 10 actions over {Register, Install, Serve, Probe (= connect, accept, GetInfo + GetInterfaceDescription of every listed and of 8 candidate unlisted/refused names through the client helpers, close), Shutdown} covering two serving rounds; seeded samples; identity strings and description texts contain non-ASCII, <>&, U+2028 and an empty version; non-trivial = an introspection happened and at least one registration was refused",
         exhaustive=False,
         assumptions=["descriptions are compared byte for byte by the recorder and logged as tokens d:<name>",
                      "the window between Bind and the accept loop is explored by TLC only (registration while listening is forced at the gate 'parked in Accept')"])
